@@ -44,7 +44,8 @@ PROFILES = {
     "decor": dict(w_decorate=7, p_multi_dec=0.35, p_group_dec=0.35, n_types=5, p_fault=0.12, w_scope=3, p_dec_chain=0.35,
                   p_dup_dec_key=0.04, p_ns=0.45, p_dec_retry=0.12, p_dec_extra=0.12),
     "callbacks": dict(p_callback=0.8, p_fault=0.3, w_decorate=3, n_types=6),
-    "dry": dict(p_dry=1.0, p_fault=0.0, p_callback=0.35, p_variadic=0.3, w_decorate=3, p_empty_invoke=0.15),
+    "dry": dict(p_dry=1.0, p_fault=0.0, p_callback=0.35, p_variadic=0.3, w_decorate=3, p_empty_invoke=0.15,
+                p_group_result=0.45, p_flatten=0.6, p_group_param=0.45, p_unknown_dep=0.15, w_invoke=9),
 }
 
 
@@ -178,6 +179,8 @@ class Gen:
         # fields (dig skips it; the model's parameter objects do not contain it)
         if obj["fields"] and self.chance(self.p["p_unexp"]):
             obj["unexp"] = self.r.randrange(len(obj["fields"]))
+        if obj["fields"] and self.chance(0.1):
+            obj["marker_last"] = True       # dig.In embedded after the fields: the same object for dig
         return obj
 
     def gen_params(self, s, n, avoid=()):
@@ -307,6 +310,18 @@ class Gen:
         leaf = self.r.choice([x for x in range(len(self.parents)) if s in self.ancestors(x)])
         f = self.new_fn(params=self.structure_params([self.leaf_param(g)]), results=[], err=True)
         self.ops.append(dict(op="invoke", scope=leaf, fn=f["id"]))
+        if self.chance(0.5):
+            # a further member arrives AFTER the group was built once: registered from some scope, half
+            # of the time exported to the root; then the group is consumed again
+            via = self.r.randrange(len(self.parents))
+            exp = self.chance(0.5)
+            tgt = 0 if exp else via
+            f = self.new_fn(params=[], results=[dict(k="obj", fields=[dict(k="group", ty=g[1], group=g[2], flatten=False, **{"as": []})])], err=False)
+            self.ops.append(dict(op="provide", scope=via, fn=f["id"], export=exp))
+            self.prov[tgt].setdefault(g, f["id"])
+            for sc in (leaf, self.r.randrange(len(self.parents))):
+                f = self.new_fn(params=self.structure_params([self.leaf_param(g)]), results=[], err=True)
+                self.ops.append(dict(op="invoke", scope=sc, fn=f["id"]))
 
     def gen_no_result(self):
         """a constructor that provides nothing: no results, only an error, or result objects without
